@@ -61,8 +61,11 @@ Print Assumptions C01_progress.
 (* A link error is reported exactly when N consecutive transmissions have gone unacknowledged, the count
    restarting at every acknowledgement: the error callback count goes up (by one) at a transmission iff
    that transmission is unacknowledged and is the N-th since the last acknowledged one; no other event
-   reports an error; none is reported at start-up.  Holds with and without safelink, for every N. *)
+   reports an error; none is reported at start-up.  Holds with and without safelink, for every N, also when
+   the dongle fails silently in between (TxUsb false: radio.send_packet returns None, neither counted nor
+   resetting the count); no_exc: radio.send_packet never raised (see C01_usb_exception_* below). *)
 Theorem C01_link_error_exact : forall N p0 negs evs,
+  Forall no_exc evs ->
   (forall o fill,
      h_errs (w_h (session N p0 negs (evs ++ [Tx o fill]))) =
      h_errs (w_h (session N p0 negs evs)) +
@@ -108,3 +111,134 @@ Print Assumptions C01_boot_is_host_boot.
 Theorem C01_dataout_never_empty : forall N p0 negs evs, h_out (w_h (session N p0 negs evs)) <> [].
 Proof. exact dataout_never_empty. Qed.
 Print Assumptions C01_dataout_never_empty.
+
+(* ===================== round 2: USB failures, the RadioDriver API around the thread, answer parsing ===== *)
+
+(* radio.send_packet returning None (usb.USBError swallowed by Crazyradio.send_packet) is invisible: no
+   count, no report, no state change besides the in-place stamping.  (The delivery theorems above allow such
+   iterations anywhere: ev_ok (TxUsb false).)  Consequence: a dongle that only fails this way is never
+   reported as a link failure by the loop. *)
+Theorem C01_usb_none_is_silent : forall N w,
+  let w1 := step N (TxUsb false) w in
+  w_h w1 = host_sent (w_h w) /\ w_p w1 = w_p w /\ w_last w1 = RNone
+  /\ w_xerrs w1 = w_xerrs w /\ w_serrs w1 = w_serrs w.
+Proof. exact usb_none_silent. Qed.
+Print Assumptions C01_usb_none_is_silent.
+
+(* radio.send_packet raising: exactly one 'Error communicating with crazy radio' report; nothing reaches the
+   peer; the sequence bits stay; and then the loop body runs AGAIN on the previous iteration's answer
+   (`ackStatus` is not reset): a previous loss is counted twice, a previous acknowledged answer is queued
+   twice and the unsent frame is replaced by the next packet. *)
+Theorem C01_usb_exception_replays_stale_answer : forall N w,
+  let w1 := step N (TxUsb true) w in
+  let h := w_h w in let h1 := w_h w1 in
+  w_xerrs w1 = w_xerrs w + 1 /\ w_p w1 = w_p w /\ w_last w1 = w_last w
+  /\ h_up h1 = h_up h /\ h_down h1 = h_down h
+  /\ match w_last w with
+     | RNone => h1 = host_sent h
+     | RAck false _ =>
+         h_retry h1 = h_retry h - 1 /\ h_errs h1 = h_errs h + (if h_retry h - 1 =? 0 then 1 else 0)
+         /\ h_inq h1 = h_inq h /\ h_outq h1 = h_outq h /\ h_out h1 = host_frame h
+     | RAck true d =>
+         h_retry h1 = N /\ h_errs h1 = h_errs h
+         /\ h_inq h1 = h_inq h ++ match d with [] => [] | d0 :: rest => [crtp_in d0 rest] end
+         /\ h_out h1 = match h_outq h with Some f => f | None => [255] end
+         /\ h_outq h1 = None
+     end.
+Proof. exact usb_exception_step. Qed.
+Print Assumptions C01_usb_exception_replays_stale_answer.
+
+(* Hence AFTER such an exception (a link failure already reported to the application) exactly-once no longer
+   holds, even if the link recovers completely: witness with one accepted packet never delivered and one
+   queued packet received twice.  Not a violation of C01 (which speaks of loss patterns short of a link
+   failure, over the three channel outcomes), but the reason why `no_exc`/`ev_ok` exclude TxUsb true. *)
+Theorem C01_usb_exception_then_not_exactly_once_refuted :
+  exists N p0 negs evs,
+    peer_ok0 p0 /\ confirmed N p0 negs /\
+    let w := session N p0 negs evs in
+    w_xerrs w = 1 /\ h_errs (w_h w) = 0
+    /\ w_accepted w = [[60; 1]] /\ filter nnb (p_rx (w_p w)) = [] /\ up_pending w = []
+    /\ w_queued w = [[92; 7]] /\ filter nnb (w_got w) = [[92; 7]; [92; 7]].
+Proof. exact usb_exception_breaks_exactly_once. Qed.
+Print Assumptions C01_usb_exception_then_not_exactly_once_refuted.
+
+(* ... and 'Too many packets lost' can then fire after fewer than N unacknowledged transmissions (N = 2, one). *)
+Theorem C01_usb_exception_miscounts_refuted :
+  exists p0 negs evs,
+    confirmed 2 p0 negs /\ tx_outcomes evs = [UpLost] /\
+    h_errs (w_h (session 2 p0 negs evs)) = 1 /\ w_xerrs (session 2 p0 negs evs) = 1.
+Proof. exact usb_exception_miscounts. Qed.
+Print Assumptions C01_usb_exception_miscounts_refuted.
+
+(* The role of the confirmation: with the negotiation NOT confirmed (all other hypotheses of the delivery
+   theorems in place) one lost acknowledgement duplicates an uplink packet and loses a downlink packet. *)
+Theorem C01_without_confirmation_refuted :
+  exists N p0 negs evs,
+    peer_ok0 p0 /\ Forall ev_ok evs /\ ~ confirmed N p0 negs /\
+    let w := session N p0 negs evs in
+    map norm (w_accepted w) = [[48; 1; 2]]
+    /\ map norm (filter nnb (p_rx (w_p w))) = [[48; 1; 2]; [48; 1; 2]] /\ up_pending w = []
+    /\ map dnorm (w_queued w) = [[92; 9]; [92; 7]]
+    /\ filter nnb (w_got w ++ h_inq (w_h w)) = [[92; 9]] /\ down_pending w = [].
+Proof. exact without_confirmation_refuted. Qed.
+Print Assumptions C01_without_confirmation_refuted.
+
+(* RadioDriver.send_packet giving up after its 2 s (queue.Full): reports 'Could not send packet' from the
+   sending thread iff out_queue is full, accepts otherwise; no other event makes that report. *)
+Theorem C01_send_timeout_report : forall N hdr data w,
+  let w1 := step N (SubmitTimeout hdr data) w in
+  match h_outq (w_h w) with
+  | Some _ => w_serrs w1 = w_serrs w + 1 /\ w_h w1 = w_h w /\ w_accepted w1 = w_accepted w
+  | None => w_serrs w1 = w_serrs w /\ w1 = step N (Submit hdr data) w
+  end.
+Proof. exact send_timeout_spec. Qed.
+Print Assumptions C01_send_timeout_report.
+
+Theorem C01_send_timeout_report_only_there : forall N e w,
+  (forall hdr data, e <> SubmitTimeout hdr data) -> w_serrs (step N e w) = w_serrs w.
+Proof. exact serrs_only_at_timeout. Qed.
+Print Assumptions C01_send_timeout_report_only_there.
+
+(* ... and it can only happen when no transmission has been acknowledged since the packet occupying
+   out_queue was accepted (time is not modelled: "2 s without an acknowledged transmission"). *)
+Theorem C01_send_timeout_only_without_ack : forall N p0 negs evs hdr data,
+  w_serrs (session N p0 negs (evs ++ [SubmitTimeout hdr data])) <> w_serrs (session N p0 negs evs) ->
+  exists evs1 e evs2 p,
+    evs = evs1 ++ e :: evs2
+    /\ w_accepted (session N p0 negs (evs1 ++ [e])) = w_accepted (session N p0 negs evs1) ++ [p]
+    /\ Forall (fun e => is_tx_ok e = false) evs2.
+Proof. exact send_timeout_only_without_ack. Qed.
+Print Assumptions C01_send_timeout_only_without_ack.
+
+(* RadioDriver.receive_packet(wait): the three wait modes differ only on an empty queue. *)
+Theorem C01_receive_packet_wait : forall wait h,
+  match h_inq h with
+  | x :: t => host_receive_wait wait h = (fst (host_receive h), Some x, false)
+              /\ h_inq (fst (host_receive h)) = t
+  | [] => host_receive_wait wait h = (h, None, wait <? 0)
+  end.
+Proof. exact receive_wait_spec. Qed.
+Print Assumptions C01_receive_packet_wait.
+
+(* RadioDriver.close() discards what send_packet accepted but the loop had not taken (and the frame in
+   flight): "accepted => delivered" is a statement about an open link. *)
+Theorem C01_close_discards_accepted_refuted :
+  exists N p0 negs evs,
+    peer_ok0 p0 /\ Forall ev_ok evs /\ confirmed N p0 negs /\
+    let w := close_world (session N p0 negs evs) in
+    w_accepted w = [[60; 1]; [77; 2]] /\ filter nnb (p_rx (w_p w)) = [] /\ h_outq (w_h w) = None.
+Proof. exact close_discards_accepted. Qed.
+Print Assumptions C01_close_discards_accepted_refuted.
+
+(* Crazyradio.send_packet's parsing of the dongle's answer, for every status byte: ack = bit 0, powerDet = bit 1,
+   retry = high nibble (0..15), payload passed through; status 0 = "no ack": retry := arc, no payload.  The
+   loop sees an acknowledgement iff the status byte is odd. *)
+Theorem C01_ack_parse_all_status_bytes : forall arc s payload,
+  0 <= s < 256 ->
+  parse_ack arc (Some (s :: payload)) =
+    Some (if s =? 0 then mkAck false false arc []
+          else mkAck (Z.odd s) (Z.odd (s / 2)) (s / 16) payload)
+  /\ 0 <= s / 16 <= 15
+  /\ radio_ack_of_usb (Some (s :: payload)) = RAck (Z.odd s) (if s =? 0 then [] else payload).
+Proof. exact parse_ack_all_status. Qed.
+Print Assumptions C01_ack_parse_all_status_bytes.
